@@ -97,6 +97,8 @@ def run(chk, replay=None):
             "random values come from a 16-bit LCG in the specification (sampled) and from math/rand in the recorder (full range, sampled)",
             "UUIDv1/v2 GetTime/SetTime are judged by C15",
         ]
+        # ---- the same entry points called by 8 goroutines at once (race-detector build): results as when called alone
+        vlib.parallel_callers(chk, "guid")
     finally:
         if saved is None:
             os.environ.pop("_JAVA_OPTIONS", None)
